@@ -18,6 +18,21 @@ def frameworkRoots : List Str :=
   [bytes! "sylvia", bytes! "cosmwasm_std", bytes! "cosmwasm_schema", bytes! "cw_multi_test", bytes! "cw_utils",
    bytes! "schemars", bytes! "serde", bytes! "serde_json", bytes! "anyhow", bytes! "cw_std", bytes! "cw_schema"]
 
+/-- path roots that resolve without looking at what the user's module has in scope: path keywords and primitive types, the
+standard prelude, tool-attribute namespaces, and the items the macros themselves generate next to the template -/
+def localRoots : List Str :=
+  [bytes! "Self", bytes! "self", bytes! "super", bytes! "crate", bytes! "std", bytes! "core", bytes! "alloc",
+   bytes! "str", bytes! "u8", bytes! "u16", bytes! "u32", bytes! "u64", bytes! "u128", bytes! "usize", bytes! "bool", bytes! "char",
+   bytes! "Box", bytes! "Vec", bytes! "String", bytes! "Option", bytes! "Result", bytes! "Some", bytes! "None", bytes! "Ok", bytes! "Err",
+   bytes! "Default", bytes! "Into", bytes! "From", bytes! "Iterator", bytes! "IntoIterator", bytes! "Clone", bytes! "ToString", bytes! "ToOwned",
+   bytes! "AsRef", bytes! "PartialEq", bytes! "Eq", bytes! "Sized", bytes! "Send", bytes! "Sync", bytes! "Drop", bytes! "Fn", bytes! "FnMut", bytes! "FnOnce",
+   bytes! "clippy", bytes! "rustfmt",
+   bytes! "sv", bytes! "InstantiateMsg", bytes! "InstantiateProxy", bytes! "ExecMsg", bytes! "QueryMsg", bytes! "SudoMsg", bytes! "MigrateMsg",
+   bytes! "ContractExecMsg", bytes! "ContractQueryMsg", bytes! "ContractSudoMsg", bytes! "CodeId", bytes! "SubMsgMethods"]
+
+/-- the helper type parameters the templates declare themselves -/
+def declaredParams : List Str := templateSites.flatMap fun t => t.2.2.1
+
 /-- conventional names of user type parameters: a single upper-case letter, or a plain word -/
 def isConventional (n : Str) : Bool :=
   (match n with | [c] => 65 ≤ c && c ≤ 90 | _ => false) ||
@@ -27,6 +42,12 @@ def isConventional (n : Str) : Bool :=
 /-- **no template names the framework (or one of its re-exported dependencies) by a literal crate path** -/
 theorem no_literal_framework_root :
     templateSites.all (fun t => t.2.1.all fun r => !frameworkRoots.contains r) = true := by decide
+
+/-- **no template relies on what the user's module happens to have in scope**: every literal path root is a path keyword,
+a prelude name, an item the macro generates itself, or a type parameter a template declares. (A bare `Response::new()` or
+`StdError::generic_err(..)` in a template compiles only in modules that import those names.) -/
+theorem roots_resolve_without_user_scope :
+    templateSites.all (fun t => t.2.1.all fun r => localRoots.contains r || declaredParams.contains r) = true := by decide
 
 /-- **helper type parameters stay clear of conventional user names** wherever user generics are in scope -/
 theorem helper_params_clear :
